@@ -392,7 +392,16 @@ func (sc *SidecarScope) collectImportedServices(ps *PushContext, configNamespace
 				Name:      vs.Name,
 			}.HashCode())
 			v := vs.Spec.(*networking.VirtualService)
-			for h, ports := range virtualServiceDestinationsFilteredBySourceNamespace(v, configNamespace) {
+			vsDestinations := virtualServiceDestinationsFilteredBySourceNamespace(v, configNamespace)
+			// Walk the destinations in a stable order: the order in which services are appended decides the
+			// order of the proxy's services (and of the clusters generated from them).
+			vsDestinationHosts := make([]string, 0, len(vsDestinations))
+			for h := range vsDestinations {
+				vsDestinationHosts = append(vsDestinationHosts, h)
+			}
+			sort.Strings(vsDestinationHosts)
+			for _, h := range vsDestinationHosts {
+				ports := vsDestinations[h]
 				byNamespace := ps.ServiceIndex.HostnameAndNamespace[host.Name(h)]
 				// Default to this hostname in our config namespace
 				if s, ok := byNamespace[configNamespace]; ok {
